@@ -34,6 +34,7 @@ struct Normaliser {
   Poly atom(int t);
   std::map<std::string, int> polyAtoms;
   std::map<int, Poly> invKey; // inv(...) atom -> the polynomial it inverts
+  int lastNumeratorAtomFree = 0; // set by zeroModDenominators when it returns false: 1 = the cleared numerator is a non-zero atom-free polynomial (the terms differ wherever defined)
   bool zeroModDenominators(Poly p); // p == 0 wherever every inverted polynomial is non-zero (denominators cleared atom by atom)
   int polyAtom(const char *kind, const Poly &p, int rep, int bytes);
   int mulCount(int t, std::unordered_map<int, int> &memo2); // number of multiplications in the expression tree
